@@ -27,6 +27,8 @@ FUNCTIONS = {}
 def _get_type_id(obj):
     if isinstance(obj, (bool, np.bool_)):
         return 2
+    elif obj is sh.EMPTY:  # A blank cell never matches.
+        return 3
     elif isinstance(obj, (str, np.str_)) and not isinstance(obj, XlError):
         return 1
     return 0
